@@ -46,7 +46,8 @@ class VirtualFile(object):
         try:
             disk_file = DiskFile(buffer=self.source_file.get_buffer())
             return disk_file.list_files(), VirtualFileType.DISK
-        except VirtualFileValidationError:
+        except (VirtualFileValidationError, UnicodeDecodeError):
+            # bytes that do not read as a disk directory (names that cannot be decoded included) are not a disk image
             pass
 
         try:
